@@ -155,7 +155,7 @@ def handle (line : String) : String :=
       let O := tableOf p
       let v := verdict p O
       let c := mkCtx p O
-      s!"ok|H={b01 (checkH p O)}|classes={b01 v.classes}|shape={b01 v.shape}|body={b01 v.body}|ret={b01 v.ret}|h3c={b01 v.h3c}|pro={b01 v.pro}|h3a={b01 v.h3a}|nsk={c.sk.length}|nsh={c.sh.length}|nns={c.ns.length}|nglob={p.globals.length}"
+      s!"ok|H={b01 (checkH p O)}|classes={b01 v.classes}|shape={b01 v.shape}|body={b01 v.body}|ret={b01 v.ret}|h3c={b01 v.h3c}|pro={b01 v.pro}|first={b01 v.first}|h3a={b01 v.h3a}|nsk={c.sk.length}|nsh={c.sh.length}|nns={c.ns.length}|nglob={p.globals.length}"
     | none => "bad-request"
   | ["hist", cs, ros, gs, rs, body, evs] =>
     match pProg cs ros gs rs body, (evs.splitOn ";").mapM pEvent with
